@@ -182,7 +182,7 @@ var interpretable = map[string]bool{
 	"path": true, "maps": true, "cmp": true, "net/url": true, "net/http": true, "net/textproto": true,
 	"internal/stringslite": true, "internal/bytealg": true, "iter": true, "math": true, "math/bits": true,
 	"internal/itoa": true, "strconv": true, "internal/godebug": false,
-	"github.com/go-openapi/jsonpointer":     true,
+	"github.com/go-openapi/jsonpointer": true, "github.com/gorilla/mux": true,
 	"vendor/golang.org/x/net/http/httpguts": true, "mime": true, "mime/multipart": true, "mime/quotedprintable": true, "bufio": true, "vendor/golang.org/x/net/http/httpproxy": false,
 }
 
@@ -224,6 +224,13 @@ func (i *interpreter) foreignCall(fr *frame, fn *ssa.Function, name string, args
 	pkg := fn.Pkg.Pkg.Path()
 	if (interpretable[pkg] || interpretableFuncs[name]) && fn.Blocks != nil {
 		return nil, false
+	}
+	// any other method of a compiled regexp, on concrete operands: the real method through reflection
+	if strings.HasPrefix(name, "(*regexp.Regexp).") && len(args) > 0 && allConcrete(args[1:]) {
+		if r, ok := i.regexpMethod(fr, strings.TrimPrefix(name, "(*regexp.Regexp)."), args); ok {
+			i.w.stubs["native:"+name]++
+			return r, true
+		}
 	}
 	if fn.Blocks == nil {
 		panic(unsupported{"no code for function: " + name})
@@ -543,4 +550,36 @@ func init() {
 	externals["(*internal/godebug.Setting).Value"] = func(fr *frame, a []value) value { return "" }
 	externals["(*internal/godebug.Setting).IncNonDefault"] = func(fr *frame, a []value) value { return nil }
 	externals["(*internal/godebug.Setting).Name"] = func(fr *frame, a []value) value { return "" }
+}
+
+func (i *interpreter) regexpMethod(fr *frame, meth string, args []value) (value, bool) {
+	re := regexpOf(args[0])
+	m := reflect.ValueOf(re).MethodByName(meth)
+	if !m.IsValid() {
+		return nil, false
+	}
+	ft := m.Type()
+	if ft.IsVariadic() || ft.NumIn() != len(args)-1 {
+		return nil, false
+	}
+	in := make([]reflect.Value, 0, len(args)-1)
+	for k, a := range args[1:] {
+		rv, ok := toReflect(a, ft.In(k))
+		if !ok {
+			return nil, false
+		}
+		in = append(in, rv)
+	}
+	out := m.Call(in)
+	res := make([]value, len(out))
+	for k, o := range out {
+		res[k] = i.fromReflect(fr, o)
+	}
+	switch len(res) {
+	case 0:
+		return nil, true
+	case 1:
+		return res[0], true
+	}
+	return tuple(res), true
 }
